@@ -38,6 +38,9 @@ TEMPLATES["deflist2"] = [("S", "DefinitionList"), ("S", "ItemTerm"), ("T", "Lite
                          ("S", "ItemTerm"), ("T", "Literal"), ("E", "ItemTerm"), ("S", "ItemBody"), ("T", "Text"), ("E", "ItemBody"), ("E", "DefinitionList")]
 
 
+# an error message as error.rs builds it: plain text around a quoted term reference (backticks in monochrome)
+TEMPLATES["termref"] = [("T", "Text"), ("S", "TermRef"), ("T", "Invalid"), ("E", "TermRef"), ("T", "Text")]
+
 # a usage line as bpaf writes it: every bracket, name and `]...` is a token of its own, so wraps are
 # decided at chunks such as `]...`
 _USAGE_ITEMS = 7
@@ -145,8 +148,13 @@ def run_content_job(job, build):
         def oracle(e):
             # inserted bytes are whitespace; user bytes in order
             kept_out = []
+            # a term reference is quoted with backticks in monochrome: two inserted bytes per TermRef block
+            ticks = 2 * sum(1 for k_, v_ in template if k_ == "S" and v_ == "TermRef")
             for b in ob:
                 if isinstance(b, int):
+                    if b == 0x60 and ticks > 0:
+                        ticks -= 1
+                        continue
                     if b not in (0x20, 0x0A):
                         return "renderer inserted the non-whitespace byte %r" % chr(b)
                 elif not is_ws(e, b):
@@ -295,7 +303,7 @@ def make_jobs(tier, seed, build):
                     jobs.append({"id": "content:%s:%s:%d:%d" % (tname, ",".join(map(str, lens)), int(full), width[0]), "kind": "content",
                                  "template": tname, "lens": list(lens), "full": full, "width": list(width)})
     # width: filler text in one fragment, symbolic text in the others
-    for tname, fixed_ix in (("plain", 0), ("block", 0), ("deflist", 1), ("deflist2", 2), ("styled", 2), ("section", 1)):
+    for tname, fixed_ix in (("plain", 0), ("block", 0), ("deflist", 1), ("deflist2", 2), ("styled", 2), ("section", 1), ("termref", 1), ("termref", 0)):
         t = TEMPLATES[tname]
         nt = sum(1 for k, _ in t if k == "T")
         for lens in itertools.product(range(0, 3), repeat=nt):
